@@ -322,13 +322,23 @@ fn workload_c(ctx: &Ctx, rep: &mut Report, uni: u64) {
     let addr = deploy(&mut u, kind, &owner, &mut rng);
     let hash = native_hash(&u.env);
     let cur = version_of(&mut u, &addr);
-    let vclass = *rng.pick(&["same", "correct", "wrong"]);
+    let vclass = *rng.pick(&["same", "correct", "wrong", "correct-spelled-differently"]);
     let aclass = *rng.pick(&["both", "both", "upgrade-only", "migrate-only", "none", "stranger-both"]);
     let dclass = *rng.pick(&["well-typed", "well-typed", "ill-typed", "wrong-arity", "empty"]);
     let migrate_sets: Vec<u8> = b"3.1.4".to_vec();
     let requested: Vec<u8> = match vclass {
         "same" => cur.clone(),
         "correct" => if kind == "versioned-target" { migrate_sets.clone() } else { b"9.9.9".to_vec() },
+        // the version the target will report, in a spelling that is not the same string
+        "correct-spelled-differently" => {
+            let base = if kind == "versioned-target" { migrate_sets.clone() } else { cur.clone() };
+            match rng.below(4) {
+                0 => [b"v".to_vec(), base].concat(),
+                1 => [b"V".to_vec(), base].concat(),
+                2 => [base, b" ".to_vec()].concat(),
+                _ => [base, b".0".to_vec()].concat(),
+            }
+        }
         _ => b"7.7.7".to_vec(),
     };
     let (up, ad, rq, ms) = (upgrader.clone(), addr.clone(), requested.clone(), migrate_sets.clone());
@@ -441,12 +451,13 @@ fn workload_c_real_swap(ctx: &Ctx, rep: &mut Report, rng: &mut Rng, mut u: U, ow
     let hash = u.env.deployer().upload_contract_wasm(Bytes::from_slice(&u.env, DUMMY_WASM));
     u.skip_events();
     let cur = version_of(&mut u, &addr);
-    let vclass = *rng.pick(&["same", "correct", "correct", "wrong"]);
+    let vclass = *rng.pick(&["same", "correct", "correct", "wrong", "correct-spelled-differently"]);
     let aclass = *rng.pick(&["both", "both", "upgrade-only", "migrate-only", "none", "stranger-both"]);
     let dclass = *rng.pick(&["well-typed", "well-typed", "ill-typed", "wrong-arity", "empty"]);
     let requested: Vec<u8> = match vclass {
         "same" => cur.clone(),
         "correct" => b"0.2.0".to_vec(),
+        "correct-spelled-differently" => rng.pick(&[b"v0.2.0".to_vec(), b"V0.2.0".to_vec(), b"0.2.0 ".to_vec(), b"0.2.0.0".to_vec(), b"00.2.0".to_vec()]).clone(),
         _ => b"7.7.7".to_vec(),
     };
     let (up, ad, rq, h2) = (upgrader.clone(), addr.clone(), requested.clone(), hash.clone());
@@ -554,5 +565,5 @@ pub fn run(ctx: &Ctx, rep: &mut Report) {
     req.push("upgrader:target:real-swap".into());
     rep.notes.insert("required".into(), json!(req));
     rep.notes.insert("bounds".into(), json!({"workload_A_sequence_length": len, "workload_A_sequences": n_a, "workload_B_swaps": n_b, "workload_C_upgrader_calls": n_c, "exhaustive_part": "workload A (all sequences of the stated length over {upgrade, migrate} x {owner, former owner, stranger, nobody} plus ownership transfer by the owner, for 6 contracts, with and without a previous ownership transfer); B and C are sampled"}));
-    rep.notes.insert("rule".into(), json!("A: every sequence of the stated length over the 9 symbols {upgrade, migrate} x {owner, former owner, stranger, nobody} and the-owner-transfers-ownership (so the role can change hands while a window is open) on gateway, gas service, operators, ITS, interchain token and a versioned test target, run natively (upgrade to the native marker hash), window model checked at every step plus an end-of-history probe, with ledger advancement (up to the expiry of every temporary entry) before one step in six; B: real code swap to committed Wasm binaries (refused for stranger/nobody, executable hash changes, owner persists); C: Upgrader.upgrade with requested version {same, correct, wrong} x authorisation coverage {both steps, upgrade only, migrate only, none, stranger} x migration data {well-typed, ill-typed, wrong arity, empty}: completes and ends at the requested different version, or the whole ledger is unchanged. distinct = (contract, op, principal, window, history, outcome) / (target, version class, auth class, data class, outcome)"));
+    rep.notes.insert("rule".into(), json!("A: every sequence of the stated length over the 9 symbols {upgrade, migrate} x {owner, former owner, stranger, nobody} and the-owner-transfers-ownership (so the role can change hands while a window is open) on gateway, gas service, operators, ITS, interchain token and a versioned test target, run natively (upgrade to the native marker hash), window model checked at every step plus an end-of-history probe, with ledger advancement (up to the expiry of every temporary entry) before one step in six; B: real code swap to committed Wasm binaries (refused for stranger/nobody, executable hash changes, owner persists); C: Upgrader.upgrade with requested version {same, correct, wrong, the correct one spelled differently (v-prefix, trailing blank, extra component)} x authorisation coverage {both steps, upgrade only, migrate only, none, stranger} x migration data {well-typed, ill-typed, wrong arity, empty}: completes and ends at the requested different version, or the whole ledger is unchanged. distinct = (contract, op, principal, window, history, outcome) / (target, version class, auth class, data class, outcome)"));
 }
